@@ -1,22 +1,53 @@
 /-
 C15 — sampling and interpolation reproduce the function at the nodes and between them.
-Property theorems only; the model is `OdlModel/Model/Interp.lean`, helper lemmas are in
-`OdlModel/Lemmas/Interp.lean`.  `K` is any linearly ordered field (ℚ, ℝ: every finite float
-is a rational), `V` any `K`-module (real or complex values).
+Property theorems only; the model is `OdlModel/Model/Interp.lean` (it follows
+`odl/discr/discr_utils.py` as it is and is tied to it by the correspondence check on every
+run), helper lemmas are in `OdlModel/Lemmas/Interp.lean`.
+
+`K` is any linearly ordered field (ℚ, ℝ; every finite float is a rational), `V` any
+`K`-module (real or complex values); for the pure index rule of `_NearestInterpolator` the
+value type is arbitrary (integers, strings).  All statements hold for every dimension
+(`axes : List (Axis K)`), every node count `n ≥ 2`, every strictly increasing (uniform or
+non-uniform) coordinate vector and every value array.
 -/
 import OdlModel.Model.Interp
 import OdlModel.Lemmas.Interp
 import Mathlib.Tactic.Ring
 import Mathlib.Tactic.Linarith
+import Mathlib.Tactic.Module
 import Mathlib.Tactic.FieldSimp
+import Mathlib.Tactic.NormNum
 import Mathlib.Algebra.Order.Field.Basic
 import Mathlib.Algebra.Order.AbsoluteValue.Basic
 import Mathlib.Algebra.Module.Defs
 
+namespace OdlModel.C15
 open OdlModel.Interp
+
+/-- The grid point with multi-index `idx`. -/
+def gridPoint {K : Type} (axes : List (Axis K)) (idx : List Nat) : List K :=
+  List.zipWith (fun a i => a.c i) axes idx
+
+/-- `idx` is a valid multi-index of the grid. -/
+def ValidIdx {K : Type} (axes : List (Axis K)) (idx : List Nat) : Prop :=
+  List.Forall₂ (fun a i => i < a.n) axes idx
+
+/-- `p` has one coordinate per axis and lies in the hull `[c 0, c (n-1)]` of every axis. -/
+def InHull {K : Type} [LE K] (axes : List (Axis K)) (p : List K) : Prop :=
+  List.Forall₂ (fun a x => a.c 0 ≤ x ∧ x ≤ a.c (a.n - 1)) axes p
+
+/-- The affine function `a0 + Σ_j x_j • b_j` of the coordinates. -/
+def affineAt {K V : Type} [Add V] [SMul K V] (a0 : V) : List K → List V → V
+  | x :: xs, b :: bs => x • b + affineAt a0 xs bs
+  | _, _ => a0
+
+end OdlModel.C15
+
+open OdlModel.Interp OdlModel.C15
 
 section
 variable {K : Type} [Field K] [LinearOrder K] [IsStrictOrderedRing K]
+variable {V : Type} [AddCommGroup V] [Module K V]
 
 /-- `_NearestInterpolator`, one axis, ANY evaluation point (inside or outside the grid), any
 strictly increasing (uniform or not) coordinate vector with at least two nodes: the selected
@@ -25,89 +56,211 @@ Outside the hull this is clamping to the first / last node. -/
 theorem C15.nearest_is_closest (c : Nat → K) (n : Nat) (p : K) (h : Incr c n) (hn : 2 ≤ n) :
     nearestIndex c n p < n ∧
     ∀ k, k < n → |p - c (nearestIndex c n p)| ≤ |p - c k| ∧
-      (|p - c k| = |p - c (nearestIndex c n p)| → k ≤ nearestIndex c n p) := by
-  have hilt := findIndex_lt c n p hn
-  have hd : 0 < c (findIndex c n p + 1) - c (findIndex c n p) := by
-    have := h (findIndex c n p) (findIndex c n p + 1) (by omega) hilt
-    linarith
-  -- distances to nodes on either side
-  have left : ∀ k, k < n → c k ≤ p → |p - c k| = p - c k := fun k _ hk =>
-    abs_of_nonneg (by linarith)
-  have right : ∀ k, k < n → p ≤ c k → |p - c k| = c k - p := fun k _ hk => by
-    rw [abs_of_nonpos (by linarith)]; ring
-  by_cases hlo : p ≤ c 0
-  · -- below the first node
-    have hi := findIndex_low c n p h hn hlo
-    have hj : nearestIndex c n p = 0 := by
-      simp only [nearestIndex, hi, normDist]
-      rw [if_pos]
-      rw [hi] at hd
-      have : (p - c 0) / (c (0 + 1) - c 0) ≤ 0 := div_nonpos_of_nonpos_of_nonneg (by linarith) hd.le
-      linarith [(by norm_num : (0:K) < 1 / 2)]
-    rw [hj]
-    refine ⟨by omega, fun k hk => ?_⟩
-    have hck : c 0 ≤ c k := h.mono (Nat.zero_le k) hk
-    rw [right 0 (by omega) hlo, right k hk (by linarith)]
-    refine ⟨by linarith, fun heq => ?_⟩
-    by_contra hne
-    have := h 0 k (by omega) hk
-    linarith
-  · push Not at hlo
-    by_cases hhi : c (n - 1) < p
-    · -- above the last node
-      have hi := findIndex_high c n p h hn hhi
-      have hj : nearestIndex c n p = n - 1 := by
-        simp only [nearestIndex, hi, normDist]
-        have e : n - 2 + 1 = n - 1 := by omega
-        rw [hi, e] at hd
-        rw [if_neg, e]
-        rw [e, not_lt, div_le_div_iff₀ (by norm_num) hd]
-        linarith
-      rw [hj]
-      refine ⟨by omega, fun k hk => ?_⟩
-      have hck : c k ≤ c (n - 1) := h.mono (by omega) (by omega)
-      rw [left (n - 1) (by omega) hhi.le, left k hk (by linarith)]
-      exact ⟨by linarith, fun _ => by omega⟩
-    · push Not at hhi
-      obtain ⟨h1, h2⟩ := findIndex_inside c n p h hn hlo hhi
-      obtain ⟨i, hi⟩ : ∃ i, findIndex c n p = i := ⟨_, rfl⟩
-      rw [hi] at h1 h2 hd hilt
-      have hnd : normDist c i p < 1 / 2 ↔ p - c i < c (i + 1) - p := by
-        unfold normDist
-        rw [div_lt_div_iff₀ hd (by norm_num)]
-        constructor <;> intro hh <;> linarith
-      have below : ∀ k, k < n → k ≤ i → |p - c k| = p - c k ∧ p - c i ≤ p - c k := fun k hk hki => by
-        have : c k ≤ c i := h.mono hki (by omega)
-        exact ⟨left k hk (by linarith), by linarith⟩
-      have above : ∀ k, k < n → i + 1 ≤ k → |p - c k| = c k - p ∧ c (i + 1) - p ≤ c k - p :=
-        fun k hk hki => by
-          have : c (i + 1) ≤ c k := h.mono hki hk
-          exact ⟨right k hk (by linarith), by linarith⟩
-      by_cases hlt : normDist c i p < 1 / 2
-      · have hj : nearestIndex c n p = i := by simp only [nearestIndex, hi, hlt, if_true]
-        rw [hj]
-        have hlt' := hnd.mp hlt
-        refine ⟨by omega, fun k hk => ?_⟩
-        rw [(below i (by omega) (le_refl _)).1]
-        by_cases hki : k ≤ i
-        · obtain ⟨e, hle⟩ := below k hk hki
-          rw [e]; exact ⟨hle, fun _ => hki⟩
-        · obtain ⟨e, hle⟩ := above k hk (by omega)
-          rw [e]; exact ⟨by linarith, fun heq => by linarith⟩
-      · have hj : nearestIndex c n p = i + 1 := by simp only [nearestIndex, hi, hlt, if_false]
-        rw [hj]
-        have hge : c (i + 1) - p ≤ p - c i := by
-          by_contra hh; exact hlt (hnd.mpr (by linarith))
-        refine ⟨by omega, fun k hk => ?_⟩
-        rw [(above (i + 1) (by omega) (le_refl _)).1]
-        by_cases hki : k ≤ i
-        · obtain ⟨e, hle⟩ := below k hk hki
-          rw [e]; exact ⟨by linarith, fun _ => by omega⟩
-        · obtain ⟨e, hle⟩ := above k hk (by omega)
-          rw [e]
-          refine ⟨hle, fun heq => ?_⟩
-          by_contra hne
-          have := h (i + 1) k (by omega) hk
-          linarith
+      (|p - c k| = |p - c (nearestIndex c n p)| → k ≤ nearestIndex c n p) :=
+  nearestIndex_closest c n p h hn
 
+/-- Non-vacuity: non-uniform nodes 0, 1, 4, 9; the exact midpoint 5/2 of the cell [1, 4] goes
+to the right node (index 2). -/
+example : Incr (fun i => ((i * i : Nat) : ℚ)) 4 ∧
+    nearestIndex (fun i => ((i * i : Nat) : ℚ)) 4 (5 / 2) = 2 := by
+  refine ⟨?_, ?_⟩
+  · exact incr_sq 4
+  · norm_num [nearestIndex, findIndex, searchLeft, normDist]
+
+/-- In any dimension the per-axis interpolator with the nearest scheme on an axis is the
+interpolator of the remaining axes applied to the slice through the closest node of that
+axis (`_compute_nearest_weights_edge` selects the same node as the index rule), for every
+coordinate, inside or outside. -/
+theorem C15.peraxis_nearest_axis (a : Axis K) (ha : a.Good) (hs : a.scheme = .nearest)
+    (as : List (Axis K)) (v : List Nat → V) (x : K) (xs : List K) :
+    perAxisInterp (a :: as) v (x :: xs) =
+      perAxisInterp as (fun idx => v (nearestIndex a.c a.n x :: idx)) xs := by
+  rw [perAxisInterp_cons]
+  exact nearest_edge_select a ha hs x (fun k => perAxisInterp as (fun idx => v (k :: idx)) xs)
+
+/-- `per_axis_interpolator(…, 'nearest')` (used by `Resampling` and `linear_deform`) and
+`nearest_interpolator` agree at every point, in every dimension. -/
+theorem C15.nearest_paths_agree (axes : List (Axis K))
+    (hg : ∀ a ∈ axes, a.Good ∧ a.scheme = .nearest) (v : List Nat → V) (p : List K) :
+    perAxisInterp axes v p = nearestInterp axes v p := by
+  induction axes generalizing v p with
+  | nil => simp [perAxisInterp_nil, nearestInterp]
+  | cons a as ih =>
+    cases p with
+    | nil => simp [perAxisInterp, perAxisEval_nil, nearestInterp]
+    | cons x xs =>
+      have h := hg a (by simp)
+      rw [C15.peraxis_nearest_axis a h.1 h.2, ih (fun b hb => hg b (by simp [hb]))]
+      simp [nearestInterp]
+
+/-- Linear axis, point in the hull: the weights are the barycentric coordinates of the point
+in its cell — they sum to one, lie in `[0, 1]`, refer to two adjacent nodes enclosing the
+point and reproduce the point itself. -/
+theorem C15.linear_weights (a : Axis K) (ha : a.Good) (hs : a.scheme = .linear) (p : K)
+    (hlo : a.c 0 ≤ p) (hhi : p ≤ a.c (a.n - 1)) :
+    (a.edge p).wlo + (a.edge p).whi = 1 ∧ 0 ≤ (a.edge p).wlo ∧ 0 ≤ (a.edge p).whi ∧
+    (a.edge p).ehi = (a.edge p).elo + 1 ∧ (a.edge p).ehi < a.n ∧
+    a.c (a.edge p).elo ≤ p ∧ p ≤ a.c (a.edge p).ehi ∧
+    (a.edge p).wlo * a.c (a.edge p).elo + (a.edge p).whi * a.c (a.edge p).ehi = p := by
+  obtain ⟨i, t, hi, h1, h2, ht0, ht1, ht, _, he⟩ := linear_edge_inside a ha hs p hlo hhi
+  rw [he]
+  refine ⟨by ring, by linarith, ht0, rfl, hi, h1, h2, ?_⟩
+  linear_combination ht
+
+/-- Linear axis, point in the hull, any dimension: the interpolant is the blend
+`(1 - t)·(lower slice) + t·(upper slice)` of the interpolants of the remaining axes on the two
+surrounding node slices, `t` the relative position in the cell.  Together with
+`peraxis_nearest_axis` and `perAxisInterp [] v [] = v []` this characterises the per-axis
+mixed interpolant as the multilinear blend of the surrounding nodes. -/
+theorem C15.linear_blend (a : Axis K) (ha : a.Good) (hs : a.scheme = .linear)
+    (as : List (Axis K)) (v : List Nat → V) (x : K) (xs : List K)
+    (hlo : a.c 0 ≤ x) (hhi : x ≤ a.c (a.n - 1)) :
+    ∃ i t, i + 1 < a.n ∧ a.c i ≤ x ∧ x ≤ a.c (i + 1) ∧ 0 ≤ t ∧ t ≤ 1 ∧
+      x = (1 - t) * a.c i + t * a.c (i + 1) ∧
+      perAxisInterp (a :: as) v (x :: xs) =
+        (1 - t) • perAxisInterp as (fun idx => v (i :: idx)) xs +
+        t • perAxisInterp as (fun idx => v ((i + 1) :: idx)) xs := by
+  obtain ⟨i, t, hi, h1, h2, ht0, ht1, ht, _, he⟩ := linear_edge_inside a ha hs x hlo hhi
+  refine ⟨i, t, hi, h1, h2, ht0, ht1, by linear_combination -ht, ?_⟩
+  rw [perAxisInterp_cons, he]
+
+/-- Node values are reproduced exactly: at the grid point of any valid multi-index both
+`_PerAxisInterpolator` (any mix of schemes per axis: `linear_interpolator`,
+`per_axis_interpolator`) and `_NearestInterpolator` return the stored value, in every
+dimension and for non-uniform coordinates. -/
+theorem C15.interp_node_exact (axes : List (Axis K)) (hg : ∀ a ∈ axes, a.Good)
+    (idx : List Nat) (hidx : ValidIdx axes idx) :
+    (∀ v : List Nat → V, perAxisInterp axes v (gridPoint axes idx) = v idx) ∧
+    (∀ (W : Type) (v : List Nat → W), nearestInterp axes v (gridPoint axes idx) = v idx) := by
+  constructor
+  · induction hidx with
+    | nil => intro v; simp [gridPoint, perAxisInterp_nil]
+    | @cons a i as is hi _ ih =>
+      intro v
+      have ih' := ih (fun b hb => hg b (by simp [hb]))
+      simp only [gridPoint, List.zipWith_cons_cons] at ih' ⊢
+      rw [perAxisInterp_cons]
+      have := axis_node a (hg a (by simp)) i hi
+        (fun k => perAxisInterp as (fun idx => v (k :: idx)) (List.zipWith (fun a i => a.c i) as is))
+      rw [this, ih']
+  · intro W v
+    have : List.zipWith (fun a x => nearestIndex a.c a.n x) axes (gridPoint axes idx) = idx := by
+      induction hidx with
+      | nil => simp [gridPoint]
+      | @cons a i as is hi _ ih =>
+        have ha := hg a (by simp)
+        simp only [gridPoint, List.zipWith_cons_cons] at ih ⊢
+        rw [nearestIndex_node a.c a.n ha.incr ha.two i hi, ih (fun b hb => hg b (by simp [hb]))]
+    simp only [nearestInterp, this]
+
+/-- Non-vacuity: a 2-d grid (3 × 2 nodes, first axis non-uniform 0,1,4, second 0,1), mixed
+schemes (linear, nearest); the node (2,1) is valid and reproduced. -/
+example : let ax : List (Axis ℚ) := [⟨3, fun i => ((i * i : Nat) : ℚ), .linear⟩, ⟨2, fun i => (i : ℚ), .nearest⟩]
+    (∀ a ∈ ax, a.Good) ∧ ValidIdx ax [2, 1] ∧ gridPoint ax [2, 1] = [4, 1] := by
+  intro ax
+  refine ⟨?_, ?_, ?_⟩
+  · intro a ha
+    simp only [ax, List.mem_cons, List.mem_nil_iff, or_false] at ha
+    rcases ha with rfl | rfl
+    · exact ⟨by simp, incr_sq 3⟩
+    · exact ⟨by simp, incr_id 2⟩
+  · exact .cons (by simp) (.cons (by simp) .nil)
+  · norm_num [ax, gridPoint]
+
+omit [LinearOrder K] [IsStrictOrderedRing K] in
+theorem C15.affineAt_add (y a0 : V) (xs : List K) (bs : List V) :
+    y + affineAt a0 xs bs = affineAt (y + a0) xs bs := by
+  induction xs generalizing bs with
+  | nil => simp [affineAt]
+  | cons x xs ih =>
+    cases bs with
+    | nil => simp [affineAt]
+    | cons b bs => simp only [affineAt, ← ih]; exact add_left_comm _ _ _
+
+/-- Linear interpolation is exact for affine functions anywhere inside the grid: if the stored
+values are `a0 + Σ_j c_j(idx_j) • b_j` at every valid multi-index, then at every point `p` of
+the hull `linear_interpolator` returns `a0 + Σ_j p_j • b_j` — any dimension, any strictly
+increasing (non-uniform) coordinate vectors, real or complex values. -/
+theorem C15.linear_affine_exact (axes : List (Axis K))
+    (hg : ∀ a ∈ axes, a.Good ∧ a.scheme = .linear) (a0 : V) (bs : List V)
+    (hb : bs.length = axes.length) (v : List Nat → V)
+    (hv : ∀ idx, ValidIdx axes idx → v idx = affineAt a0 (gridPoint axes idx) bs)
+    (p : List K) (hp : InHull axes p) :
+    perAxisInterp axes v p = affineAt a0 p bs := by
+  induction hp generalizing v a0 bs with
+  | nil =>
+    rw [perAxisInterp_nil, hv [] .nil]
+    simp [gridPoint, affineAt]
+  | @cons a x as xs hx _ ih =>
+    obtain ⟨ha, hs⟩ := hg a (by simp)
+    cases bs with
+    | nil => simp at hb
+    | cons b bs =>
+      obtain ⟨i, t, hi, _, _, _, _, hxe, hstep⟩ :=
+        C15.linear_blend a ha hs as v x xs hx.1 hx.2
+      have slice : ∀ k, k < a.n →
+          perAxisInterp as (fun idx => v (k :: idx)) xs = a.c k • b + affineAt a0 xs bs := by
+        intro k hk
+        rw [C15.affineAt_add]
+        apply ih (fun c hc => hg c (by simp [hc])) _ _ (by simpa using hb)
+        intro idx hidx
+        rw [hv (k :: idx) (.cons hk hidx), ← C15.affineAt_add]
+        simp [gridPoint, affineAt]
+      rw [hstep, slice i (by omega), slice (i + 1) hi]
+      simp only [affineAt]
+      rw [hxe]
+      module
+
+/-- Non-vacuity for `linear_affine_exact`: the hypotheses are met by a 2-d non-uniform grid
+with the values of `1 + 2x - 3y`, and an interior non-node point. -/
+example : let ax : List (Axis ℚ) := [⟨3, fun i => ((i * i : Nat) : ℚ), .linear⟩, ⟨2, fun i => (i : ℚ), .linear⟩]
+    InHull ax [5 / 2, 1 / 3] ∧ affineAt (1 : ℚ) [5 / 2, 1 / 3] [(2 : ℚ), -3] = 5 := by
+  intro ax
+  refine ⟨.cons (by norm_num) (.cons (by norm_num) .nil), ?_⟩
+  norm_num [affineAt]
+
+/-- Outside behaviour as coded (the documented zero extension): below the first node of a
+linear axis the interpolant is the first-node slice scaled by `1 - dist/h₀`, above the last
+node the last-node slice scaled by `1 - dist/h_last` (`h` the width of the adjacent cell): a
+linear decay that reaches `0` one cell outside (and, as coded, continues with negative
+weights beyond). -/
+theorem C15.outside_zero_extension (a : Axis K) (ha : a.Good) (hs : a.scheme = .linear)
+    (as : List (Axis K)) (v : List Nat → V) (x : K) (xs : List K) :
+    (x < a.c 0 → perAxisInterp (a :: as) v (x :: xs) =
+        (1 - (a.c 0 - x) / (a.c 1 - a.c 0)) • perAxisInterp as (fun idx => v (0 :: idx)) xs) ∧
+    (a.c (a.n - 1) < x → perAxisInterp (a :: as) v (x :: xs) =
+        (1 - (x - a.c (a.n - 1)) / (a.c (a.n - 1) - a.c (a.n - 2))) •
+          perAxisInterp as (fun idx => v ((a.n - 1) :: idx)) xs) := by
+  constructor
+  · intro hx
+    rw [perAxisInterp_cons, linear_edge_low a ha hs x hx]
+    simp only [zero_smul, zero_add]
+    congr 1; ring
+  · intro hx
+    have hn := ha.two
+    have hd : a.c (a.n - 1) - a.c (a.n - 2) ≠ 0 := by
+      have := ha.incr (a.n - 2) (a.n - 1) (by omega) (by omega)
+      intro h; linarith
+    rw [perAxisInterp_cons, linear_edge_high a ha hs x hx]
+    simp only [zero_smul, add_zero]
+    congr 1; field_simp; ring
+
+/-- Outside a nearest axis the per-axis interpolator clamps to the end node (special case of
+`peraxis_nearest_axis` and `nearest_is_closest`): stated for the record on the index. -/
+theorem C15.nearest_outside_clamps (c : Nat → K) (n : Nat) (p : K) (h : Incr c n) (hn : 2 ≤ n) :
+    (p ≤ c 0 → nearestIndex c n p = 0) ∧ (c (n - 1) ≤ p → nearestIndex c n p = n - 1) := by
+  obtain ⟨hj, hcl⟩ := nearestIndex_closest c n p h hn
+  constructor
+  · intro hp
+    by_contra hne
+    have h0 := (hcl 0 (by omega)).1
+    have hc := h 0 _ (Nat.pos_of_ne_zero hne) hj
+    rw [abs_of_nonpos (by linarith), abs_of_nonpos (by linarith)] at h0
+    linarith
+  · intro hp
+    by_contra hne
+    have h0 := (hcl (n - 1) (by omega)).1
+    have hc := h (nearestIndex c n p) (n - 1) (by omega) (by omega)
+    rw [abs_of_nonneg (by linarith), abs_of_nonneg (by linarith)] at h0
+    linarith
 end
